@@ -457,6 +457,29 @@ func c19LRU(c *core.Ctx, pkg *packages.Package) {
 				res := t.Run()
 				valOK := fn.Canon(hit.Rhs[0]) == item+"#0.Data" && fn.Canon(hit.Lhs[0].(*ast.IndexExpr).Index) == "each(p1)"
 				c.Check(res.OK() && valOK, "R3", "LRUCache.Get:expiry", hit.Pos(), "a locally cached value is returned ⇔ present ∧ ExpiresAt.After(now); an expired entry is removed: "+res.Summary(), res.Rows)
+				// census: the data of a local entry is read nowhere else in the LRU layer (no path around the expiry test)
+				var elsewhere []string
+				reads := 0
+				for _, f := range an.Funcs(pkg) {
+					if !strings.HasPrefix(f.Name, "(*LRUCache).") {
+						continue
+					}
+					f.InspectDeep(func(n ast.Node) bool {
+						sel, ok := n.(*ast.SelectorExpr)
+						if !ok || sel.Sel.Name != "Data" {
+							return true
+						}
+						if t := f.Info().TypeOf(sel.X); t == nil || !strings.HasSuffix(t.String(), "cache.Item") {
+							return true
+						}
+						reads++
+						if !an.InNode(hit, sel) {
+							elsewhere = append(elsewhere, fmt.Sprintf("%s line %d", f.Name, c.Prog.Fset.Position(sel.Pos()).Line))
+						}
+						return true
+					})
+				}
+				c.Check(len(elsewhere) == 0 && reads > 0, "R3", "LRUCache:data-reads", hit.Pos(), fmt.Sprintf("the data of a local entry is read at %d site(s), only the one guarded by the expiry test; elsewhere: %v", reads, elsewhere), reads)
 			}
 			// back-fill
 			okBF := false
